@@ -72,9 +72,12 @@ class Ctx:
     def coq_build(self, props=None):
         """(Re)generate _CoqProject/Makefile when the set of .v files changed, then make the .vo of
         the given Props files and everything they depend on (full .vo build, never -vos)."""
-        ensure_coq_makefile()
+        import fcntl
         targets = " ".join(os.path.join("theories", p[:-2] + ".vo") for p in (props or [])) or "all"
-        rc, out, err, dt = sh("timeout 3000 make -j16 %s 2>&1" % targets, cwd=COQ, timeout=3100)
+        with open(os.path.join(BUILD, "coq.lock"), "w") as lk:     # concurrent checks share one Makefile
+            fcntl.flock(lk, fcntl.LOCK_EX)
+            ensure_coq_makefile()
+            rc, out, err, dt = sh("timeout 3000 make -j16 %s 2>&1" % targets, cwd=COQ, timeout=3100)
         self.cov["coq_make_s"] = round(dt, 1)
         if rc != 0:
             m = re.findall(r'File "([^"]+)", line (\d+)', out)
